@@ -24,17 +24,11 @@ def required_tags(tier):
             'k:dc_current_source', 'src_off_frequency', 'ground', 'no_ground', 'peak', 'rms', 'dc']
 
 
-def circuit_scales(comps, obs, zu, vu, w=0.0):
-    """natural magnitudes of voltage and current in a circuit scenario at angular frequency w (spec units)"""
-    s_v = max([abs(gauss(x)) for _, x in items(obs['phi'])] + [abs(gauss(x)) for x in obs['u']] + [0.0]) * vu
-    s_i = max([abs(gauss(x)) for x in obs['i']] + [0.0]) * vu / zu
+def impedances(comps, zu, w):
+    """magnitudes of the finite non-zero impedances of a circuit at angular frequency w (spec units of w)"""
     zs = []
     for c in comps:
         v, k = c['v'], c['kind']
-        if 'V' in v:
-            s_v = max(s_v, abs(gauss(v['V']) if isinstance(v['V'][0], list) else float(rat(v['V']))) * vu)
-        if 'I' in v:
-            s_i = max(s_i, abs(gauss(v['I']) if isinstance(v['I'][0], list) else float(rat(v['I']))) * vu / zu)
         z = None
         if k == 'resistor':
             z = float(rat(v['R']))
@@ -58,6 +52,20 @@ def circuit_scales(comps, obs, zu, vu, w=0.0):
             z = 1 / float(rat(v['G']))
         if z:
             zs.append(z * zu)
+    return zs
+
+
+def circuit_scales(comps, obs, zu, vu, w=0.0):
+    """natural magnitudes of voltage and current in a circuit scenario at angular frequency w (spec units)"""
+    s_v = max([abs(gauss(x)) for _, x in items(obs['phi'])] + [abs(gauss(x)) for x in obs['u']] + [0.0]) * vu
+    s_i = max([abs(gauss(x)) for x in obs['i']] + [0.0]) * vu / zu
+    for c in comps:
+        v = c['v']
+        if 'V' in v:
+            s_v = max(s_v, abs(gauss(v['V']) if isinstance(v['V'][0], list) else float(rat(v['V']))) * vu)
+        if 'I' in v:
+            s_i = max(s_i, abs(gauss(v['I']) if isinstance(v['I'][0], list) else float(rat(v['I']))) * vu / zu)
+    zs = impedances(comps, zu, w)
     if zs:
         s_v = max(s_v, s_i * max(zs))
         s_i = max(s_i, s_v / min(zs))
